@@ -172,6 +172,7 @@ func init() {
 		c17FloatSamples(w, r)
 		nameKeyedSetOverInline(w, r, "C17", func(fn *ssa.Function) bool { return isGeneratorFunc(fn) && roleOf(fn) == "test" }, "a sample / test emitter remembers packets under their names and consults that set for inline objects too: the sample of an inline object that shares its name with a construct seen before is skipped, the emitted test builds an incomplete message")
 		cycleGuardIsPathScoped(w, r, "C17")
+		sampleKeyAndPayloadFromOnePair(w, r, "C17")
 		wireModelFrame(w, r, "C17", framePackets, nil, map[string]bool{"Packet": true, "Field": true}, "a generator rewrites the packet list / a field list in the shared model: the self-tests of the targets generated after it no longer cover every declared packet")
 		wireAssumptions(r)
 	})
